@@ -32,7 +32,7 @@ BUDGET_S = {"quick": 1500, "thorough": 5400}
 
 def BOUND(tier):
     return {
-        "family": "Family_2(B0)" if tier == "quick" else "Family_2(B0) both jit modes + Family_3 on interaction-prone features",
+        "family": "Family_2(B0)" if tier == "quick" else "Family_2(B0) both jit modes + Family_3(B0) on interaction-prone features + Family_2 around the fully discrete and the stochastic base",
         "features": {k: len(v) for k, v in family.FEATURES.items()},
         "valuations": ["default", "perturbed(beta=0.95)"] + (["beta=0", "beta=1"] if tier == "thorough" else []),
     }
@@ -50,12 +50,16 @@ def cases(tier, seed):
         out.append({"id": e1.fv_id(fv), "fv": fv, "jits": jits, "dev": dev, "seed": seed, "tier": tier})
         seen.add(e1.fv_id(fv))
     if tier == "thorough":
-        members, _ = e1.family_members(3, {k: family.FEATURES[k] for k in PRONE})
-        for fv, dev in members:
-            i = e1.fv_id(fv)
-            if i not in seen:
-                seen.add(i)
-                out.append({"id": i, "fv": fv, "jits": [True], "dev": dev, "seed": seed, "tier": tier})
+        groups = [e1.family_members(3, {k: family.FEATURES[k] for k in PRONE})[0]]
+        # Family_2 around two further bases (fully discrete; stochastic without filter)
+        for base_dev in ({"cc": "none", "wgrid": "disc"}, {"h": "hd", "filt": "none"}):
+            groups.append(e1.family_members(2, {k: family.FEATURES[k] for k in PRONE + ["T", "aux", "trans", "order"]}, base=dict(family.BASE, **base_dev))[0])
+        for members in groups:
+            for fv, dev in members:
+                i = e1.fv_id(fv)
+                if i not in seen:
+                    seen.add(i)
+                    out.append({"id": i, "fv": fv, "jits": [True], "dev": dev, "seed": seed, "tier": tier})
     return out
 
 
